@@ -6,8 +6,9 @@ import shutil
 import subprocess
 import time
 
-SPEC_DIR = "/verif/spec"
-OUT_ROOT = "/verif/out"
+VERIF_ROOT = os.path.dirname(os.path.dirname(os.path.abspath(__file__)))
+SPEC_DIR = os.path.join(VERIF_ROOT, "spec")
+OUT_ROOT = os.path.join(VERIF_ROOT, "out")
 JAR = "/opt/veriftools/tla/tla2tools.jar"
 CM = "/opt/veriftools/tla/CommunityModules-deps.jar"
 
